@@ -13,6 +13,7 @@ EXPLANATION = (
     "every routed CosmosMsg variant to the same variant with the same payload, carry id/payload/gas_limit/reply_on, "
     "customize_response must carry messages/events/attributes/data); constant modules return only Err / only Ok; "
     "error discipline in the routing files. User-supplied modules are opaque."
+    " (R7) The sender of messages emitted by a contract is that contract (C05.R4 dispatch obligations and C03.R3 under C17's id); (R8) a failed dispatch is returned as it is unless the sub-message asked for a reply on error (the failure cells of the execute_submsg table under C17's id)."
 )
 TRUSTED = ["rustc MIR construction", "cwmt-facts driver", "vlib (dominators, provenance)", "C01.R2/C02.R1 (a failing module aborts like any error)"]
 ASSUMPTIONS = ["user-supplied modules are opaque"]
